@@ -54,10 +54,10 @@ class Stale(SubCheck):
         self.svg = svg
         self.case_cpu_limit = case_cpu_limit
         self.src = dict(c18.sources(svg))
-        if extra_sources:
-            self.src.update(extra_sources)
         if kinds is not None:
             self.src = {k: v for k, v in self.src.items() if k in kinds}
+        if extra_sources:
+            self.src.update(extra_sources)
         self.mut = dict(c18.mutations(svg))
         if only_mutations is not None:
             self.mut = {k: v for k, v in self.mut.items() if k in only_mutations}
